@@ -10,7 +10,8 @@ Inductive err :=
 | EUnknown (name : bytes)            (* *ErrUnknownIdentifier, unwrapped *)
 | EFail (sentinel : option N).       (* any other error; Some k when errors.Is(err, E_k) *)
 
-(* panic sites (reflect preconditions the code does not check) *)
+(* panic sites: reflect preconditions the code did not check before the C04
+   repairs; no function of the model returns RPanic any more (proofs/EvalProofs.v) *)
 Definition P_MAP_NIL_KEY : N := 1.     (* reflect.TypeOf(nil).Kind() in evalAccessIndex *)
 Definition P_NEG_INDEX : N := 2.       (* rv.Index(i) with i < 0 *)
 Definition P_SET_NIL : N := 3.         (* reflect.ValueOf(nil).Type() / Set(zero Value) *)
@@ -598,21 +599,18 @@ Definition eval_index_step (self : evals) (st : state) (l i v callee : expr) : R
               match hget (sheap st2) loc with
               | Some (HMap kty _ kvs) =>
                   match iv with
-                  | VNil => RPanic P_MAP_NIL_KEY
+                  | VNil => fail st2
                   | _ =>
                       let kind_ok :=
                         match kty, iv with
                         | TyIface, _ => true
-                        | TyString, VStr _ | TyString, VHTML _ | TyInt, VInt _ | TyBool, VBool _ | TyFloat, VFloat _ => true
+                        | TyString, VStr _ | TyInt, VInt _ | TyBool, VBool _ | TyFloat, VFloat _ => true
                         | _, _ => false
                         end in
                       if negb kind_ok then fail st2
-                      else match kty, iv with
-                           | TyString, VHTML _ => RPanic P_MAP_ASSIGN
-                           | _, _ => match vlookup iv kvs with
-                                     | Some x => finish x st2
-                                     | None => ROk (VNil, st2)
-                                     end
+                      else match vlookup iv kvs with
+                           | Some x => finish x st2
+                           | None => ROk (VNil, st2)
                            end
                   end
               | _ => fail st2
@@ -625,8 +623,7 @@ Definition eval_index_step (self : evals) (st : state) (l i v callee : expr) : R
                          end in
               match els, iv with
               | Some es, VInt z =>
-                  if (Z.of_nat (length es) - 1 <? z)%Z then fail st2
-                  else if (z <? 0)%Z then RPanic P_NEG_INDEX
+                  if (z <? 0)%Z || (Z.of_nat (length es) - 1 <? z)%Z then fail st2
                   else match nth_error es (Z.to_nat z) with
                        | Some x => finish x st2
                        | None => fail st2
@@ -653,7 +650,7 @@ Definition eval_index_step (self : evals) (st : state) (l i v callee : expr) : R
                                 | TyIface, _ => true
                                 | t, x => ty_eqb t (ty_of x)
                                 end in
-                  if negb (key_ok && val_ok) then RPanic P_MAP_ASSIGN
+                  if negb (key_ok && val_ok) then fail st3
                   else
                     let kvs' := match nv with VNil => vdelete iv kvs | _ => vupdate iv nv kvs end in
                     ROk (VNil, with_heap st3 (hset (sheap st3) loc (HMap kty vty kvs')))
@@ -662,10 +659,13 @@ Definition eval_index_step (self : evals) (st : state) (l i v callee : expr) : R
           | VSlice loc =>
               match hget (sheap st3) loc, iv with
               | Some (HSlice ety es), VInt z =>
-                  if (Z.of_nat (length es) - 1 <? z)%Z then fail st3
-                  else if (z <? 0)%Z then RPanic P_NEG_INDEX
+                  if (z <? 0)%Z || (Z.of_nat (length es) - 1 <? z)%Z then fail st3
                   else match nv with
-                       | VNil => RPanic P_SET_NIL
+                       | VNil =>
+                           if ty_eqb ety TyIface then
+                             let es' := firstn (Z.to_nat z) es ++ [VNil] ++ skipn (S (Z.to_nat z)) es in
+                             ROk (VNil, with_heap st3 (hset (sheap st3) loc (HSlice ety es')))
+                           else fail st3
                        | _ =>
                            if ty_eqb ety TyIface || ty_eqb ety (ty_of nv) then
                              let es' := firstn (Z.to_nat z) es ++ [nv] ++ skipn (S (Z.to_nat z)) es in
@@ -694,7 +694,7 @@ Definition eval_call_step (self : evals) (st : state) (fn : expr) (callee : opti
             let+ (c, st1) := r_eval self st ce in
             let mname := match fn with EIdent _ _ names => last names [] | _ => estr fn end in
             match c with
-            | VNil => RPanic P_NIL_RECEIVER
+            | VNil => fail st1
             | VStruct tn fs =>
                 match find_method (g_methods G tn) mname with
                 | Some (_, id) => ROk ((Some (VBound c id), c), st1)
@@ -705,11 +705,7 @@ Definition eval_call_step (self : evals) (st : state) (fn : expr) (callee : opti
                 | Some (_, id) => ROk ((Some (VBound c id), c), st1)
                 | None => ROk ((None, c), st1)              (* rc.Interface(): the receiver itself *)
                 end
-            | VNilPtr tn =>
-                match find_method (g_methods G tn) mname with
-                | Some _ => RPanic P_NIL_METHOD
-                | None => ROk ((None, c), st1)
-                end
+            | VNilPtr tn => fail st1
             | _ => fail st1
             end
         | None =>
@@ -755,6 +751,7 @@ Definition eval_call_step (self : evals) (st : state) (fn : expr) (callee : opti
       end.
 
 Definition user_call_step (self : evals) (st : state) (params : list bytes) (body : block) (args : list expr) : R :=
+      if Nat.ltb (length args) (length params) then fail st else
       let octx := scur st in
       let '(st1, n) := cnew st in
       rfinal (fun s => with_cur s octx)
@@ -764,7 +761,7 @@ Definition user_call_step (self : evals) (st : state) (params : list bytes) (bod
 Definition bind_params_step (self : evals) (st : state) (params : list bytes) (args : list expr) : R :=
       match params, args with
       | [], _ => ROk (VNil, st)
-      | _ :: _, [] => RPanic P_USERFN_ARGS
+      | _ :: _, [] => fail st
       | p :: ps, a :: rest =>
           let+ (v, st1) := r_eval self st a in
           r_bind_params self (set_in st1 (scur st1) p v) ps rest
@@ -861,7 +858,7 @@ Definition go_apply_step (self : evals) (st : state) (id : N) (cfg : list value)
         match bs with
         | [BV v] => match len_model (lenarg_of h v) with
                     | LenOk n => ROk (VInt (Z.of_nat n), st)
-                    | LenPanic => RPanic P_LEN
+                    | LenPanic => RUnsup
                     end
         | _ => RUnsup
         end
@@ -898,22 +895,11 @@ Definition go_apply_step (self : evals) (st : state) (id : N) (cfg : list value)
       else if id =? H_TRUNCATE then
         match bs with
         | [BV (VStr s); m] =>
-            match map_of_barg h m with
-            | None => RPanic P_TRUNCATE              (* assignment to an entry of a nil map *)
-            | Some kvs =>
-                let size := match vlookup (VStr k_size) kvs with None | Some VNil => Some 50%Z | Some (VInt z) => Some z | _ => None end in
-                let trail := match vlookup (VStr k_trail) kvs with None | Some VNil => Some s_dots | Some (VStr t) => Some t | _ => None end in
-                (* size is asserted first; trail only when the string is too long *)
-                match size with
-                | None => RPanic P_TRUNCATE
-                | Some sz =>
-                    if (Z.of_nat (rune_len s) <=? sz)%Z then ROk (VStr s, st)
-                    else match trail with
-                         | None => RPanic P_TRUNCATE
-                         | Some t => ROk (VStr (truncate s sz t), st)
-                         end
-                end
-            end
+            let kvs := match map_of_barg h m with Some x => x | None => [] end in
+            (* options of the wrong type fall back to the defaults *)
+            let sz := match vlookup (VStr k_size) kvs with Some (VInt z) => z | _ => 50%Z end in
+            let t := match vlookup (VStr k_trail) kvs with Some (VStr t) => t | _ => s_dots end in
+            ROk (VStr (truncate s sz t), st)
         | _ => RUnsup
         end
       else if id =? H_HTMLESCAPE then
